@@ -190,6 +190,9 @@ theorem compileWith_fwd (orig : Doms) (imp : Option Atom) (c : Cons) (ps : List 
     simp only [PropInst.cons, Cons.sat, decide_eq_true_eq, sumViews, List.map_cons, List.map_nil, List.foldl_cons,
       List.foldl_nil, View.scaled_eval]
     omega
+  · -- cumulative
+    simp only [List.mem_singleton] at hp; subst hp
+    exact wrap_sat imp _ a H
   · -- clause
     rename_i ls
     cases imp with
@@ -274,7 +277,7 @@ def consWf (n : Nat) : Cons → Prop
   | .min xs r => (∀ t ∈ xs, t.var < n) ∧ r.var < n
   | .element i xs r => i.var < n ∧ (∀ t ∈ xs, t.var < n) ∧ r.var < n
   | .allDiff xs => ∀ t ∈ xs, t.var < n
-  | .cumulative _ _ => True
+  | .cumulative ts _ => tasksWf n ts
   | .clause ls => ∀ p ∈ ls, p.var < n
   | .conj ls => ∀ p ∈ ls, p.var < n
   | .implied r c => r.var < n ∧ consWf n c
@@ -392,6 +395,7 @@ theorem compileWith_wf {n : Nat} (orig : Doms) (imp : Option Atom) (himp : ∀ r
     rcases ht with rfl | rfl
     · exact hw x hx
     · exact hw y hy
+  · simp only [List.mem_singleton] at hp; subst hp; exact wrap_wf imp himp _ hw
   · rename_i ls
     cases imp with
     | none => exact clauseInst_wf orig ls hw p hp
@@ -461,6 +465,13 @@ theorem initPost_ok {n : Nat} {a : List Int} (p : PropInst) (hw : p.Wf n) (hsat 
           simp only [PropInst.cons, Cons.sat, decide_eq_false_iff_not, Decidable.not_not]
           simp at hs
           omega
+        | cumulative ho ts cap =>
+          simp only [PropInst.initConflict] at hc
+          cases hs : (PropInst.cumulative ho ts cap).cons.sat a
+          · rfl
+          · exfalso
+            exact oversize_unsat ts cap hw.2 hc
+              ((CumSem.cumulative_sat_iff ts cap a (fun k hk => (hw.2 k hk).2)).1 hs)
         | _ => simp [PropInst.initConflict] at hc
       simp only [PropInst.cons, Cons.sat, hq, Bool.or_false, Bool.not_eq_true'] at hsat
       apply postAtom_ok h hl (by simpa using hw.1)
